@@ -16,7 +16,7 @@ import common
 from common import Check
 
 PID = "C10"
-NPROC = min(16, common.NCPU)
+NPROC = int(os.environ.get("VERIF_WORKERS", min(16, common.NCPU)))
 POINTS = ["RNamespace", "RActEntry", "RActAfterIncr", "RPreamble", "RParse", "RCompile", "RExec", "RStore", "RConstruct"]
 
 
@@ -106,6 +106,74 @@ def py_nullable(nf):
     return nul, bad
 
 
+def leftmost_graph(nf, nul):
+    """harness-side mirror of LeftRec.first_calls on the normal form: rule -> rules it may invoke at the same input position"""
+    R = nf["rules"]
+
+    def n(it):
+        k = it[0]
+        if k in ("tok", "soft"):
+            return False
+        if k == "name":
+            return it[1] in nul
+        if k in ("opt", "star", "pos", "neg", "cut"):
+            return True
+        if k in ("plus", "forced"):
+            return n(it[1])
+        if k == "gather":
+            return n(it[2])
+        if k == "group":
+            return any(all(n(i) for i in a) for a in it[1])
+
+    def fc_alt(alt):
+        out = []
+        for it in alt:
+            out += fc(it)
+            if not n(it):
+                break
+        return out
+
+    def fc(it):
+        k = it[0]
+        if k == "name":
+            return [it[1]] if it[1] in R else []
+        if k in ("opt", "star", "plus", "pos", "neg", "forced"):
+            return fc(it[1])
+        if k == "gather":
+            return fc(it[2]) + (fc(it[1]) if n(it[2]) else [])
+        if k == "group":
+            return [x for a in it[1] for x in fc_alt(a)]
+        return []
+    return {name: sorted({x for a in r["alts"] for x in fc_alt(a)}) for name, r in R.items()}
+
+
+def rank_nonleaders(graph, leaders):
+    """topological rank of the leftmost-call graph restricted to non-leader rules (callees get smaller ranks);
+    returns (rank, cycle) - cycle is a leader-free cycle if one exists (then no rank function exists)."""
+    rank, state, cycle = {}, {}, []
+
+    def visit(r, stack):
+        if r in leaders or r in rank:
+            return
+        if state.get(r) == 1:
+            if not cycle:
+                cycle.extend(stack[stack.index(r):] + [r])
+            return
+        state[r] = 1
+        best = 0
+        for x in graph.get(r, []):
+            if x in leaders:
+                continue
+            visit(x, stack + [r])
+            best = max(best, rank.get(x, 0) + 1)
+        rank[r] = best
+    import sys as _s
+    _s.setrecursionlimit(10000)
+    for r in graph:
+        visit(r, [])
+    return rank, cycle
+
+
 def grammar_wf(c):
     gram = os.path.join(common.REPO, "src/scenic/syntax/scenic.gram")
     r = subprocess.run([common.PY, "-c",
@@ -119,26 +187,45 @@ def grammar_wf(c):
     ids = {}
     body = ";\n  ".join(f"({rules[n]}%N, {gallina_alts(nf['rules'][n]['alts'], ids, rules)})" for n in nf["order"])
     body = re.sub(r"(PTok|PRule) (\d+)", r"\1 \2%N", body)
-    text = ("From Coq Require Import NArith List Bool.\nFrom Scenic Require Import C10.PEG C10.FrontendProofs.\nImport ListNotations.\n"
+    nul, bad = py_nullable(nf)
+    graph = leftmost_graph(nf, nul)
+    leaders = {n_ for n_ in nf["order"] if nf["rules"][n_]["leader"]}
+    rank, cycle = rank_nonleaders(graph, leaders)
+    g_leaders = "[" + "; ".join(f"{rules[n_]}%N" for n_ in nf["order"] if n_ in leaders) + "]"
+    g_rank = "[" + "; ".join(f"({rules[n_]}%N, {rank.get(n_, 0)}%N)" for n_ in nf["order"] if n_ not in leaders) + "]"
+    text = ("From Coq Require Import NArith List Bool.\nFrom Scenic Require Import C10.PEG C10.FrontendProofs C10.LeftRec C10.LeftRecProofs.\nImport ListNotations.\n"
             f"Definition G : grammar := [\n  {body}\n].\n"
             "Definition tbl := nullable_fix 80 G [].\n"
             "Lemma G_closed : closed G tbl = true. Proof. vm_compute. reflexivity. Qed.\n"
             "Lemma G_wf : wf_check G tbl = true. Proof. vm_compute. reflexivity. Qed.\n"
             "Theorem G_loops_consume : forall r e b, In (r, e) G -> In b (rep_bodies e) -> forall T (s s' : list T), succ G T b s s' -> (length s' < length s)%nat.\n"
             "Proof. exact (wf_check_sound_loops G tbl G_closed G_wf). Qed.\n"
-            "Eval vm_compute in tbl.\nEval vm_compute in (length (flat_map (fun re => rep_bodies (snd re)) G)).\n")
+            "Eval vm_compute in tbl.\nEval vm_compute in (length (flat_map (fun re => rep_bodies (snd re)) G)).\n"
+            "(* left recursion: every cycle of the leftmost-call graph passes through one of pegen's memoised left-recursive leaders *)\n"
+            f"Definition leaders : list N := {g_leaders}.\nDefinition rank : list (N * N) := {g_rank}.\n"
+            "Lemma G_lr : lr_check G tbl leaders rank = true. Proof. vm_compute. reflexivity. Qed.\n"
+            "Theorem G_cycles_through_leaders : forall r0 mid, is_path (lstep G tbl) r0 mid r0 -> exists x, In x (r0 :: mid) /\\ memN x leaders = true.\n"
+            "Proof. exact (lr_check_sound G tbl leaders rank G_lr). Qed.\n"
+            "Theorem G_same_input_cycles_through_leaders : forall T (s : list T) r0 mid, is_path (sstep G T s) r0 mid r0 -> exists x, In x (r0 :: mid) /\\ memN x leaders = true.\n"
+            "Proof. exact (lr_check_sound_chain G tbl leaders rank G_closed G_lr). Qed.\n")
     ok, out = common.run_coq_cases("C10Grammar", text, timeout=900)
-    nul, bad = py_nullable(nf)
     c.count(("grammar", hashlib.sha256(body.encode()).hexdigest()[:12]), nontrivial=True)
     m = re.search(r"= \[([^\]]*)\]", out)
     coq_nul = set()
     if m:
         inv = {v: k for k, v in rules.items()}
         coq_nul = {inv[int(x.strip().rstrip("%N"))] for x in m.group(1).replace("\n", " ").split(";") if x.strip()}
-    m2 = re.findall(r"= (\d+)\s*\n\s*: nat", out)
+    m2 = re.findall(r"= (\d+)(?:%nat)?\s*\n\s*: nat", out)
     c.cov["grammar_wf"] = dict(rules=len(rules), terminals=len(ids), nullable_rules=sorted(coq_nul), repetitions=int(m2[-1]) if m2 else None,
                                kernel_checked=ok)
-    if not ok:
+    c.cov["grammar_wf"].update(leaders=sorted(leaders), leftmost_edges=sum(len(v) for v in graph.values()),
+                               max_rank=max(rank.values()) if rank else 0,
+                               left_recursive_nonleaders=sorted(n_ for n_ in nf["order"] if nf["rules"][n_]["left_recursive"] and n_ not in leaders))
+    if not ok and cycle:
+        c.violation("grammar-wf", "a cycle of the leftmost-call graph of scenic.gram avoids every memoised left-recursive leader "
+                    "(the generated recursive-descent parser can recurse forever without consuming a token), or the rank certificate no longer checks",
+                    dict(cycle=cycle, leaders=sorted(leaders), log=out[-800:]), no_input=not cycle)
+    elif not ok:
         wit = [dict(rule=rname, repetition=json.dumps(it)[:300]) for rname, it in bad[:3]]
         c.violation("grammar-wf", "a repetition of scenic.gram has a nullable body (the generated loop can spin without consuming a token), "
                     "or the nullable table is not closed", dict(offending=wit, log=out[-800:]), no_input=not wit)
@@ -159,6 +246,13 @@ def injection(c):
     res = common.run_impl("impl_c10.py", dict(kind="inject", cases=cases), timeout=1800)["results"]
     code = {None: 0, "Injected": 1, "AssertionError": 2, "IndexError": 3}
     goals = []
+    # which protocol does the tree implement?  Decided by OBSERVED behaviour at the raise point before veneer.activate: the repaired
+    # protocol (branch fix-C10-veneer-activate: activate is all-or-nothing, deactivate only after a completed activate) restores the
+    # state there, the original one ends with activity -1.  Every case is then checked against that model; a mixture fails.
+    probe = next((r for r in res if r["case"]["point"] == "RNamespace" and r["case"]["level"] == 0 and not r["case"]["params"]), None)
+    fixed = bool(probe and probe["restored"] and probe["exception"] == "Injected")
+    fn = "scenario_from_stream_fixed" if fixed else "scenario_from_stream"
+    c.cov["protocol_model"] = fn
     for r in res:
         cs = r["case"]
         o = "(Opts true [5%N] None)" if cs["params"] else "default_opts"
@@ -167,9 +261,9 @@ def injection(c):
         a = r["after"]
         obs = (code.get(r["exception"], 9), a["activity"], a["stack"], str(a["mode2D"]).lower(), str(bool(a["locked"])).lower(),
                str(bool(a["gparams"])).lower(), str(a["current"]).lower())
-        goals.append(f"Goal summarize (scenario_from_stream {o} {top} 1%N {nested} s0) = ({obs[0]}%nat, ({obs[1]})%Z, {obs[2]}%nat, {obs[3]}, {obs[4]}, {obs[5]}, {obs[6]}). "
+        goals.append(f"Goal summarize ({fn} {o} {top} 1%N {nested} s0) = ({obs[0]}%nat, ({obs[1]})%Z, {obs[2]}%nat, {obs[3]}, {obs[4]}, {obs[5]}, {obs[6]}). "
                      "Proof. vm_compute. reflexivity. Qed.")
-    header = ("From Coq Require Import ZArith NArith List Bool.\nFrom Scenic Require Import C10.Frontend.\nImport ListNotations.\n"
+    header = ("From Coq Require Import ZArith NArith List Bool.\nFrom Scenic Require Import C10.Frontend C10.FrontendFixed.\nImport ListNotations.\n"
             "Definition isnil {A} (l : list A) := match l with [] => false | _ => true end.\n"
             "Definition summarize (r : option exn * vstate) :=\n"
             "  (match fst r with None => 0%nat | Some (EUser _) => 1%nat | Some EAssert => 2%nat | Some EIndex => 3%nat end,\n"
@@ -183,7 +277,7 @@ def injection(c):
         bad_line = int(m.group(1)) - header.count("\n") - 1 if m else None
     for i, r in enumerate(res):
         cs = r["case"]
-        unsafe = (cs["level"] == 0 and cs["point"] in ("RNamespace", "RActEntry", "RActAfterIncr")) or (cs["level"] == 1 and cs["point"] == "RActAfterIncr")
+        unsafe = (not fixed) and ((cs["level"] == 0 and cs["point"] in ("RNamespace", "RActEntry", "RActAfterIncr")) or (cs["level"] == 1 and cs["point"] == "RActAfterIncr"))
         c.count(("inject", json.dumps(cs, sort_keys=True)), nontrivial=True)
         c.hist(f"inject:{cs['point']}:level{cs['level']}:{'restored' if r['restored'] else 'NOT-restored'}")
         c.cov["traces_validated_against_impl"] += 1
@@ -290,7 +384,7 @@ def judge(c, r, src=None):
         c.hist("route:" + x)
     if "@" in r.get("mutation", ""):
         c.hist("file-variant:" + r["mutation"].rsplit("@", 1)[1])
-    c.count(("mutant", r.get("sha")), nontrivial=oc != "ok" or "+" in r.get("mutation", "") or r.get("mutation", "").split("@")[0] in ("template", "tail"))
+    c.count(("mutant", r.get("sha")), nontrivial=oc != "ok" or "+" in r.get("mutation", "") or r.get("mutation", "").split("@")[0] in ("template", "tail", "directed-template", "directed-tail"))
     if "veneer_restored" in r:
         c.cov["traces_validated_against_impl"] += 1
         if not r["veneer_restored"]:
@@ -366,13 +460,34 @@ def main():
         for f in sorted(os.listdir(cdir)):
             if f.endswith(".json"):
                 jobs.append(dict(id=len(jobs), text=json.load(open(os.path.join(cdir, f)))["text"], mutation="corpus:" + f))
+    # directed part (every run, exhaustive over small tables): every template x the names the compiler tracks and a few Scenic
+    # expressions x every block context, on a two-line base program, through parse + compile + Python's compile();
+    # every unterminated tail x {as is, without / with trailing newline} as a REAL FILE (errors located at / past the end of the file)
+    import impl_c10 as I
+    def ind(txt, k):
+        return "\n".join(" " * k + l for l in txt.split("\n"))
+    base = "ego = new Object\n"
+    dexprs = ["ego", "workspace", "globalParameters", "front of ego", "x deg", "new Object", "x can see y"]
+    for ti, T in enumerate(I.TEMPLATES):
+        for e in dexprs:
+            t0 = T.replace("{e}", e).replace("{{", "{").replace("}}", "}")
+            for ci, ctx in enumerate(I.CONTEXTS[1:]):
+                if ci > 0 and (e not in ("ego", "workspace", "front of ego") or (not quick and False)):
+                    continue
+                t = ctx.replace("{t}", t0).replace("{TT}", ind(t0, 8)).replace("{T}", ind(t0, 4)).replace("{e1}", t0.split("\n")[0])
+                routes = ["ast", "string"] if (ti + ci) % 5 == 0 else ["ast"]
+                jobs.append(dict(id=len(jobs), text=base + t + "\n", mutation="directed-template", routes=routes))
+    for tail in I.TAILS + ["behavior B():\n    try:\n        wait\n    interrupt when True:", "scenario Main():\n    setup:", "x = [1,", "require (", "new Object with"]:
+        for v, txt in (("as-is", base + tail), ("add-newline", base + tail + "\n"), ("strip", (base + tail).rstrip("\n")), ("no-base", tail)):
+            jobs.append(dict(id=len(jobs), text=txt, mutation="directed-tail@" + v, routes=["file", "import"] if v == "as-is" else ["file"]))
+    c.cov["directed_inputs"] = len(jobs)
     srcs = scenic_sources()
     c.cov["scenic_sources"] = len(srcs)
-    n = 3000 if quick else 250000
+    n = int(os.environ.get("VERIF_C10_N", 2600 if quick else 250000))     # VERIF_C10_N: development knob only
     rng = c.rng
     for i in range(n):
         jobs.append(dict(id=len(jobs), path=rng.choice(srcs), seed=rng.randrange(10 ** 9), extra=rng.choice([0, 0, 0, 1, 2])))
-    res = par("fuzz", jobs, dict(cpu_budget=(80 if quick else 2100)))
+    res = par("fuzz", jobs, dict(cpu_budget=((1440 // NPROC) if quick else 2100 * 16 // NPROC))   # CPU-seconds per worker: the total work does not depend on the number of workers)
     byid = {j["id"]: j for j in jobs}
     for r in sorted(res, key=lambda r: r["id"]):
         judge(c, r, src=byid[r["id"]].get("path"))
